@@ -227,7 +227,7 @@ pub fn gen_scenario(seed: u64, large: u8) -> Scenario {
             continue;
         }
         // operations that meet a pool, a keyed map or an address get 3x the weight of the rest
-        let hot = op.large_ok || matches!(op.name, "stitch_triangulation" | "sweep_intersections" | "sweep_intersections_refs" | "interior_point" | "monotone_subdivision" | "par_iter_multipolygon" | "par_iter_multipoint_mls" | "unary_union_multi" | "intersection_poly_poly" | "constrained_triangulation_members" | "constrained_outer_triangulation" | "aggregates" | "geodesic_aggregates");
+        let hot = op.large_ok || matches!(op.name, "stitch_triangulation" | "sweep_intersections" | "sweep_intersections_refs" | "interior_point" | "monotone_subdivision" | "par_iter_multipolygon" | "par_iter_multipoint_mls" | "unary_union_multi" | "intersection_poly_poly" | "constrained_triangulation_members" | "constrained_outer_triangulation" | "aggregates" | "geodesic_aggregates" | "concave_hull" | "k_nearest_concave_hull" | "outliers");
         if large == 0 && !hot && !rng.chance(1, 3) {
             continue;
         }
@@ -240,10 +240,15 @@ pub fn gen_scenario(seed: u64, large: u8) -> Scenario {
         if large == 0 && matches!(op.name, "aggregates" | "geodesic_aggregates" | "par_iter_multipolygon" | "par_iter_multipoint_mls") && rng.chance(1, 2) {
             fam = "mantissa";
         }
+        // the spatial-index driven algorithms named in the property: point clouds half of the time
+        if large == 0 && matches!(op.name, "concave_hull" | "k_nearest_concave_hull" | "outliers") && rng.chance(1, 2) {
+            fam = "cloud";
+        }
         let mut spec = inputs::gen_spec(&mut rng, fam, large);
         // thousands of full-mantissa members are for the aggregate / par-iter operations only
         if fam == "mantissa" && !matches!(op.name, "aggregates" | "geodesic_aggregates" | "par_iter_multipolygon" | "par_iter_multipoint_mls") {
-            spec.size = spec.size.min(60);
+            // (disjoint small triangles are cheap to union: many-input unary unions stay in)
+            spec.size = spec.size.min(if matches!(op.name, "unary_union" | "unary_union_multi") { 1000 } else { 60 });
         }
         let knobs = if large > 0 || !op.large_ok || rng.chance(1, 5) {
             Knobs { strategy: 0, par_sort_min_size: 32768 }
@@ -270,7 +275,15 @@ pub fn gen_cfg(seed: u64, v: u64) -> Cfg {
     // ("@self:<size>:<seed>")
     let prefix: Vec<String> = if rng.chance(2, 5) {
         (0..1 + rng.below(3))
-            .map(|_| if rng.chance(1, 2) { format!("@self:{}:{}", 1 + rng.below(24), rng.next_u64()) } else { rng.pick(PREFIX_OPS).0.to_string() })
+            .map(|_| {
+                if rng.chance(1, 2) {
+                    // size 0 = "the same size as the input of the call under test"
+                    let size = if rng.chance(1, 2) { 0 } else { 1 + rng.below(24) };
+                    format!("@self:{}:{}", size, rng.next_u64())
+                } else {
+                    rng.pick(PREFIX_OPS).0.to_string()
+                }
+            })
             .collect()
     } else {
         vec![]
@@ -301,7 +314,10 @@ fn prefix_inputs_for(sc: &Scenario, cfg: &Cfg) -> Vec<(&'static OpDef, Input)> {
                 let (size, seed) = rest.split_once(':')?;
                 let op = ops::find(&sc.op)?;
                 // never larger than the scenario's own input (keeps shipped-threshold runs cheap)
-                let size: usize = size.parse::<usize>().ok()?.min(sc.input.size.max(1));
+                let size: usize = match size.parse::<usize>().ok()? {
+                    0 => sc.input.size.max(1),
+                    s => s.min(sc.input.size.max(1)),
+                };
                 return Some((op, inputs::build(&InputSpec { family: sc.input.family.clone(), size, seed: seed.parse().ok()? })));
             }
             let fam = PREFIX_OPS.iter().find(|(n, _)| n == name)?.1;
@@ -611,8 +627,26 @@ fn account(t: &mut Tot, sc: &Scenario, cfg: &Cfg, info: &RunInfo) {
     }
 }
 
+/// Runs in a fresh grandchild of the pristine server: the reference outcome of one scenario in a
+/// process that has never executed anything else.
+fn pristine_handler(req: &[u8]) -> Vec<u8> {
+    let sc: Scenario = match serde_json::from_slice(req) {
+        Ok(s) => s,
+        Err(_) => return vec![],
+    };
+    let op = match ops::find(&sc.op) {
+        Some(o) => o,
+        None => return vec![],
+    };
+    let input = inputs::build(&sc.input);
+    let (o, _) = run_one(&sc, op, &input, &[], &Cfg::reference());
+    o.digest().to_le_bytes().to_vec()
+}
+
 pub fn run(a: &Args) -> i32 {
     install_global_panic_hook();
+    // before anything else runs in this process
+    let pristine = if a.extra.get("pristine").map(|s| s != "0").unwrap_or(true) { seams::Pristine::start(3 << 30, pristine_handler) } else { None };
     let t0 = Instant::now();
     let variants: u64 = a.extra.get("variants").and_then(|s| s.parse().ok()).unwrap_or(3);
     let large: u8 = a.extra.get("large").and_then(|s| s.parse().ok()).unwrap_or(0);
@@ -633,8 +667,9 @@ pub fn run(a: &Args) -> i32 {
     let mut hazards: Vec<Value> = Vec::new();
     let refcfg = Cfg::reference();
 
+    let until: u64 = a.extra.get("until").and_then(|s| s.parse().ok()).unwrap_or(u64::MAX);
     let mut r = a.shard_i;
-    while r < a.runs {
+    while r < a.runs && r <= until {
         let s_r = mix(&[a.seed, name_hash(stream), r]);
         let sc = gen_scenario(s_r, large);
         let op = ops::find(&sc.op).unwrap();
@@ -643,11 +678,27 @@ pub fn run(a: &Args) -> i32 {
         if trace {
             eprintln!("run {} {:?} segments={}", r, sc, input.segments);
         }
-        // S7: a forced Frag strategy (a knob geo never ships for small inputs) or a
-        // shipped-threshold input can drive the overlay engine into unbounded work on some
-        // inputs; screen those scenarios in a resource-limited child first and skip the ones
-        // that do not finish (a hazard of the dependency, not a C20 verdict)
-        if sc.knobs.strategy == 4 || large > 0 {
+        // S7 + fresh-process clause: the reference outcome is first computed in a pristine
+        // process (a fresh child of a server forked before this shard ran anything), under
+        // memory and time limits.  (a) If it does not finish there, the scenario is skipped:
+        // a forced Frag strategy (a knob geo never ships for small inputs) or a pathological
+        // input can drive a dependency into unbounded work - a hazard, not a C20 verdict.
+        // (b) Its digest must equal the digest computed here, after this process's history.
+        let mut pristine_digest: Option<u64> = None;
+        if let Some(p) = &pristine {
+            tot.add("guarded_scenarios", 1);
+            match p.ask(&serde_json::to_vec(&sc).unwrap(), if large > 0 { 90 } else { 8 }) {
+                Some(b) if b.len() == 8 => pristine_digest = Some(u64::from_le_bytes(b.try_into().unwrap())),
+                _ => {
+                    tot.add("hazard_skipped", 1);
+                    if hazards.len() < 3 {
+                        hazards.push(json!({"run": r, "scenario": sc}));
+                    }
+                    r += a.shard_n;
+                    continue;
+                }
+            }
+        } else if sc.knobs.strategy == 4 || large > 0 {
             tot.add("guarded_scenarios", 1);
             let ok = seams::survives_in_child(3 << 30, if large > 0 { 60 } else { 5 }, || {
                 let _ = run_one(&sc, op, &input, &[], &refcfg);
@@ -669,6 +720,28 @@ pub fn run(a: &Args) -> i32 {
         }
         if let Outcome::Panic(_) = reference {
             tot.add("reference_panics", 1);
+        }
+        if let Some(pd) = pristine_digest {
+            evaluations += 1;
+            tot.add("fresh_process_comparisons", 1);
+            if pd != reference.digest() {
+                let n_same = violations.iter().filter(|x| x["class"] == "fresh-process-differs").count();
+                let path = if n_same < 3 {
+                    let rep = json!({
+                        "property": "C20", "engine": "sched", "kind": "fresh-process", "verif_seed": a.seed, "run": r, "tier": a.tier,
+                        "scenario": sc,
+                        "difference": {"class": "fresh-process-differs", "needed_dimensions": ["process-history"],
+                                       "pristine_process_digest": format!("{:016x}", pd), "this_process": reference.to_json()},
+                        "reproduce": {"shard": format!("{}/{}", a.shard_i, a.shard_n), "runs": a.runs, "large": large, "variants": variants,
+                                      "note": "the same call gives a different result after this shard's earlier runs than in a process that has run nothing; re-running the shard up to this run index reproduces it"},
+                    });
+                    Value::String(write_replay(a, &format!("C20-{}-{}{}-fresh.json", a.seed, if large > 0 { "L" } else { "" }, r), &rep))
+                } else {
+                    Value::Null
+                };
+                violations.push(json!({"replay": path, "class": "fresh-process-differs", "op": sc.op, "run": r, "needed_dimensions": ["process-history"],
+                    "detail": format!("{} on {:?}: digest {:016x} in a pristine process vs {} here after {} earlier scenarios", sc.op, sc.input, pd, reference.to_json(), scenarios - 1)}));
+            }
         }
         tot.max("max_segments", input.segments as u64);
         for v in 0..variants {
@@ -778,6 +851,34 @@ pub fn replay(a: &Args) -> i32 {
             return 2;
         }
     };
+    if v["kind"] == "fresh-process" {
+        // re-execute the recorded shard up to the recorded run: the history is part of the replay
+        let rp = &v["reproduce"];
+        let (si, sn) = rp["shard"].as_str().unwrap_or("0/1").split_once('/').map(|(x, y)| (x.parse().unwrap_or(0), y.parse().unwrap_or(1))).unwrap_or((0, 1));
+        let tmp = format!("{}/replay-fresh-{}", std::env::temp_dir().display(), std::process::id());
+        let _ = std::fs::create_dir_all(&tmp);
+        let mut a2 = a.clone();
+        a2.seed = v["verif_seed"].as_u64().unwrap_or(1);
+        a2.shard_i = si;
+        a2.shard_n = sn;
+        a2.runs = rp["runs"].as_u64().unwrap_or(0);
+        a2.out_dir = tmp.clone();
+        a2.replay_dir = tmp.clone();
+        a2.extra.insert("large".into(), rp["large"].to_string());
+        a2.extra.insert("variants".into(), rp["variants"].to_string());
+        a2.extra.insert("until".into(), v["run"].to_string());
+        a2.extra.insert("cross".into(), "0".into());
+        let _ = run(&a2);
+        let sum: Value = std::fs::read(format!("{}/C20-shard{}.json", tmp, si)).ok().and_then(|b| serde_json::from_slice(&b).ok()).unwrap_or(Value::Null);
+        let hit = sum["violations"].as_array().map(|vs| vs.iter().any(|x| x["class"] == "fresh-process-differs" && x["run"] == v["run"])).unwrap_or(false);
+        let _ = std::fs::remove_dir_all(&tmp);
+        if hit {
+            println!("VIOLATION property=C20 replay={}", f);
+            return 1;
+        }
+        println!("NOT-REPRODUCED property=C20 replay={}", f);
+        return 0;
+    }
     let sc: Scenario = serde_json::from_value(v["scenario"].clone()).expect("scenario");
     let cfg: Cfg = serde_json::from_value(v["variant"]["config"].clone()).expect("config");
     let want_class = v["difference"]["class"].as_str().unwrap_or("").to_string();
